@@ -45,7 +45,7 @@ def budget(tier):
 
 @st.composite
 def elements(draw):
-    return draw(st.sampled_from([0, 2, 2, 3, 4, 5, 7]))
+    return draw(st.sampled_from([0, 1, 2, 2, 3, 4, 5, 7]))
 
 
 @st.composite
